@@ -1181,6 +1181,12 @@ func (m *Nitro) LoadFromDisk(dir string, concurr int, callb ItemCallback) (*Snap
 		}
 	}
 
+	// The assembled structure replaces the (empty) one the instance was created
+	// with; with user-managed memory its sentinel nodes have to be given back.
+	if m.useMemoryMgmt {
+		m.store.FreeNode(m.store.HeadNode(), &m.store.Stats)
+		m.store.FreeNode(m.store.TailNode(), &m.store.Stats)
+	}
 	m.store = b.Assemble(segments...)
 
 	// Delta processing
